@@ -33,7 +33,7 @@ TRUSTED_BASE = ["vf.refs.kvline", "vf.ctl.Session"]
 ANCHORS = ["txtorcon.torcontrolprotocol:TorControlProtocol.set_conf",
            "txtorcon.torcontrolprotocol:TorControlProtocol.queue_command",
            "txtorcon.torcontrolprotocol:TorControlProtocol._maybe_issue_command"]
-FLOORS = {"quick": {"evaluations": 3000, "lines_decoded": 2500, "queued_calls": 800, "control_char_cases": 500, "long_commands": 3,
+FLOORS = {"quick": {"evaluations": 3000, "lines_decoded": 2500, "queued_calls": 800, "control_char_cases": 500, "marker_literal_cases": 100, "long_commands": 3,
                     "reach:txtorcon.torcontrolprotocol:TorControlProtocol.set_conf": 3000},
           "thorough": {"evaluations": 30000, "lines_decoded": 25000}}
 
@@ -243,6 +243,18 @@ def run_shard(spec, rec):
         go({"pairs": [("", "v")]})
         rec.count("unencodable_key_cases", n + 1)
         rec.enumerated("critical character x position in key x pair position")
+    elif mode == "literals":
+        # values that read like markers txtorcon or Tor use elsewhere; written as source literals
+        # (interned objects) and as equal strings assembled at run time
+        n = 0
+        for lit in ["DEFAULT", "default", "NEVER", "auto", "AUTO", "0", "1", "True", "False", "None", "NULL", "OK",
+                    "250 OK", "SETCONF", "=", "{}", "<default>", "NEW:BEST", "DISCARD"]:
+            for v in (lit, "".join(list(lit))):
+                for pairs in ([("ContactInfo", v)], [("SocksPort", "9050"), ("Log", v)], [("Log", v), ("ORPort", "0")]):
+                    go({"pairs": pairs})
+                    n += 1
+        rec.count("marker_literal_cases", n)
+        rec.enumerated("19 marker-like literals x interned/assembled x 3 pair positions")
     elif mode == "control":
         # every C0 control character and DEL: alone, inside a word, next to a space / quote / backslash
         n = 0
@@ -343,12 +355,13 @@ def replay(case, rec):
 def plan(tier, seed):
     if tier == "quick":
         sp = [{"mode": "exhaustive", "maxlen": 3, "part": i, "of": 4} for i in range(4)]
-        sp += [{"mode": "keys"}, {"mode": "control"}, {"mode": "long", "sizes": [[600000, 600000], [1100000], [30] * 40000]}]
+        sp += [{"mode": "keys"}, {"mode": "control"}, {"mode": "literals"},
+               {"mode": "long", "sizes": [[600000, 600000], [1100000], [30] * 40000]}]
         sp += [{"mode": "random", "n": 700} for _ in range(9)]
         sp += [{"mode": "queued", "n": 250} for _ in range(2)]
     else:
         sp = [{"mode": "exhaustive", "maxlen": 4, "part": i, "of": 8} for i in range(8)]
-        sp += [{"mode": "keys"}, {"mode": "control"},
+        sp += [{"mode": "keys"}, {"mode": "control"}, {"mode": "literals"},
                {"mode": "long", "sizes": [[600000, 600000], [1100000], [30] * 40000, [400000] * 6, [1 << 20, 5], [5, 1 << 20]]}]
         sp += [{"mode": "random", "n": 25000} for _ in range(12)]
         sp += [{"mode": "queued", "n": 8000} for _ in range(4)]
